@@ -96,7 +96,12 @@ func (g *Grammar) Options(types []reflect.Type) []participle.Option {
 
 // Build renders g to struct types and calls participle.Build.
 func Build(g *Grammar, extra ...participle.Option) (*Built, error) {
-	types := g.Types()
+	return BuildTypes(g, g.Types(), extra...)
+}
+
+// BuildTypes calls participle.Build for already rendered production types (so that several parsers
+// with different options share their AST types).
+func BuildTypes(g *Grammar, types []reflect.Type, extra ...participle.Option) (*Built, error) {
 	b := &Built{G: g, Types: types, TypeIdx: map[reflect.Type]int{}}
 	for i, t := range types {
 		b.TypeIdx[t] = i
